@@ -273,4 +273,55 @@ example : bindReg Avo.Gen.regs [(257, 65792)] ⟨257, 2⟩ = some ⟨65792, 2⟩
 /-- … and a high-byte view allocated to RSI cannot be bound. -/
 example : bindReg Avo.Gen.regs [(257, 393472)] ⟨257, 2⟩ = none := by decide +kernel
 
+/-! ### Whole files through `pass.Compile`: soundness of `accept-file` and `accept-print` -/
+
+/-- **Statement (file level).** If compiling a file reported success then no function of the file is one for which
+no valid assignment was found. -/
+def FileOK (perFn : List FnOutcome) (compiled : Bool) : Prop :=
+  compiled = true → ∀ o ∈ perFn, o ≠ FnOutcome.err
+
+theorem checkFile_sound (perFn : List FnOutcome) (compiled : Bool) (h : checkFile perFn compiled = none) :
+    FileOK perFn compiled := by
+  intro hc o ho hoe
+  subst hc hoe
+  simp only [checkFile, if_true] at h
+  rw [List.findIdx?_eq_none_iff] at h
+  have := h _ ho
+  simp at this
+
+/-- … and it rejects exactly the offending function: its position, wherever it stands. -/
+theorem checkFile_complete (perFn : List FnOutcome) (h : FnOutcome.err ∈ perFn) : (checkFile perFn true).isSome = true := by
+  simp only [checkFile, if_true]
+  rw [List.findIdx?_isSome]
+  exact List.any_eq_true.mpr ⟨_, h, by decide⟩
+
+example : checkFile [.ok, .err, .ok] true = some 1 ∧ checkFile [.err, .ok] true = some 0 ∧ checkFile [.ok, .ok, .err] true = some 2 ∧
+    checkFile [.ok, .err, .ok] false = none ∧ checkFile [.ok, .unknown, .ok] true = none ∧ checkFile [] true = none := by decide
+
+/-- model of `reg.virtual.Asm()`: `<virtual:idx:kind:size>` -/
+def virtAsm (idx kind size : Nat) : List Char := virtualMark ++ s!":{idx}:{kind}:{size}>".toList
+
+theorem hasSub_of_infix (p : List Char) : ∀ s : List Char, p <:+: s → hasSub p s = true
+  | [], h => by
+    have : p = [] := List.eq_nil_of_infix_nil h
+    subst this; rfl
+  | c :: cs, h => by
+    unfold hasSub
+    rcases List.infix_cons_iff.mp h with h | h
+    · simp [List.isPrefixOf_iff_prefix.mpr h]
+    · simp [hasSub_of_infix p cs h]
+
+/-- **`accept-print` is sound**: a text the acceptor lets through contains the printed form of no virtual register,
+whatever its index, kind and size. -/
+theorem noVirtualText_sound (s : List Char) (h : noVirtualText s = true) (idx kind size : Nat) :
+    ¬ (virtAsm idx kind size <:+: s) := by
+  intro hin
+  have hp : virtualMark <:+: s := List.IsInfix.trans (List.prefix_append _ _).isInfix hin
+  have := hasSub_of_infix _ _ hp
+  simp [noVirtualText, this] at h
+
+example : noVirtualText "\tMOVQ $0x00000001, AX\n\tRET\n".toList = true ∧
+    noVirtualText "\tMOVQ $0x00000001, <virtual:0:1:8>\n".toList = false ∧
+    noVirtualText "\tMOVQ (<virtual:3:1:8>)(AX*2), BX".toList = false ∧ noVirtualText [] = true := by decide
+
 end Avo.Alloc
